@@ -159,13 +159,16 @@ def replay(beh: list[dict]) -> tuple[list, int, int]:
 def _chunk(items: list) -> tuple[int, int, list]:
     out = []
     drift = steps = 0
-    for s in items:
+    from checks import store_replay
+    for bk, s in enumerate(items):
         beh = json.loads(s)
+        store_replay.set_load_factor(store_replay.rot(bk + len(s)))
         fnd, d, st = replay(beh)
         drift += d
         steps += st
         for fp, kind, msg, step in fnd:
             out.append((fp, kind, msg, step, beh))
+    store_replay.set_load_factor(1000)
     return drift, steps, out
 
 
